@@ -746,3 +746,24 @@ def check_panics(ctx, rep, rid, fns, allow, ignore_kinds=('assert_overflow:Add',
                 rep.ob(rid, fn, key, True, where, 'listed: ' + listed[key])
             else:
                 rep.ob(rid, fn, key, False, where, 'may-panic site `%s` is neither guarded by a recognised idiom nor listed with a reason why the input cannot trigger it' % key)
+
+
+def field_method_ops(ctx, adt, field, prefix='server::'):
+    """{fn: sorted set of method names called with `X.field` (X: adt) as receiver}"""
+    import json
+    out = {}
+    needle = '"%s","%s"' % (adt, field)
+    for d in sorted(ctx.facts.body_defs()):
+        if not in_crate(d, prefix):
+            continue
+        raw = ctx.facts.raw_body(d)
+        if needle not in json.dumps(raw['blocks'], separators=(',', ':')):
+            continue
+        b = ctx.body(d)
+        for c in b.calls:
+            if not is_user_call(c) or not c.args:
+                continue
+            e = b.expr_operand(c.args[0])
+            if e[0] == 'field' and e[3] == adt and e[2] == field:
+                out.setdefault(ctx.user_fn_of(d), set()).add(c.name.split('::')[-1])
+    return {k: sorted(v) for k, v in out.items()}
